@@ -56,7 +56,7 @@ def compress():
             obls += res['obligations']
             funcs = res['funcs']
         return {'obligations': obls, 'funcs': funcs, 'paths': paths}
-    return Scenario(label, CA + '.compress', gen, props=('C20',))
+    return Scenario(label, CA + '.compress', gen, props=('C20', 'C03', 'C04'))
 
 
 def decompress():
@@ -108,7 +108,7 @@ def decompress():
             obls += res['obligations']
             funcs = res['funcs']
         return {'obligations': obls, 'funcs': funcs, 'paths': paths}
-    return Scenario(label, CA + '.decompress', gen, props=('C20',))
+    return Scenario(label, CA + '.decompress', gen, props=('C20', 'C03', 'C04'))
 
 
 def scenarios():
